@@ -1443,7 +1443,7 @@ fn main() {
 		finish(&ctx, ev, violations, None);
 	}
 
-	let total: u64 = ctx.tier.pick(20_000, 2_000_000);
+	let total: u64 = ctx.tier.pick(20_000, 16_000_000);
 	let shards = 64u64;
 	let results = run_parallel((0..shards).collect(), |_, s| workload(Rng::fork(ctx.seed, s).next_u64(), total / shards + 1, s == 0));
 	for sh in results {
